@@ -21,6 +21,12 @@ PRELUDE = r'''
 #include <cmath>
 #include <memory>
 #include <optional>
+#if !__has_include(<format>)
+// libstdc++ 12 has no <format>; the message text of an exception is not observed by the driver
+namespace std { template<class... A> std::string format(const std::string& f, A&&...) { return f; } }
+#else
+#include <format>
+#endif
 namespace show {
 inline std::string s(int v) { return std::to_string(v); }
 inline std::string s(long v) { return std::to_string(v); }
@@ -104,18 +110,42 @@ def build_unit(idx, cpp, entries):
     return body, calls
 
 
-def py_results(src, entries):
+class OutOfSubset(Exception):
+    pass
+
+
+def py_results(src, entries, bound=2 ** 31 - 1):
+    """results under CPython; None when some integer held by a local variable leaves the 32-bit range (the
+    program is then outside the subset in which Python and C++ integers agree)"""
+    import sys
     env = {'__name__': 'c01_prog'}
     exec(compile(src, 'c01_prog.py', 'exec'), env)
     out = {}
+
+    def tracer(frame, event, arg):
+        if frame.f_code.co_filename != 'c01_prog.py':
+            return None
+        if event in ('line', 'return'):
+            for v in frame.f_locals.values():
+                if type(v) is int and not -bound <= v <= bound:
+                    raise OutOfSubset()
+            if event == 'return' and type(arg) is int and not -bound <= arg <= bound:
+                raise OutOfSubset()
+        return tracer
     for ei, (prefix, argvs, _rt) in enumerate(entries):
         for ai, args in enumerate(argvs):
+            sys.settrace(tracer)
             try:
                 out[(ei, ai)] = py_show(eval('%s(*%r)' % (prefix, tuple(args)), env))
+            except OutOfSubset:
+                sys.settrace(None)
+                return None
             except RecursionError:
                 out[(ei, ai)] = 'raise'
             except Exception:
                 out[(ei, ai)] = 'raise'
+            finally:
+                sys.settrace(None)
     return out
 
 
